@@ -1493,6 +1493,8 @@ class AstEval:
                 if self.curr_func and arg1.id in self.curr_func.global_names:
                     if arg1.id in self.global_sym_table:
                         del self.global_sym_table[arg1.id]
+                    else:
+                        raise NameError(f"name '{arg1.id}' is not defined")
                 elif arg1.id in self.sym_table:
                     if isinstance(self.sym_table[arg1.id], EvalLocalVar):
                         if self.sym_table[arg1.id].is_defined():
